@@ -402,7 +402,7 @@ impl EncodingVersion for EncodingVersion1 {
         deserializer: &mut XTypesDeserializer<'a, E, Self>,
         dynamic_data: &mut DynamicData,
     ) -> XTypesResult<()> {
-        deserializer.deserialize_fstruct_type(dynamic_data)
+        deserializer.deserialize_t_as_final(dynamic_data)
     }
 }
 
@@ -604,7 +604,7 @@ impl EncodingVersion for EncodingVersion2 {
         deserializer: &mut XTypesDeserializer<'a, E, Self>,
         dynamic_data: &mut DynamicData,
     ) -> XTypesResult<()> {
-        deserializer.deserialize_delimited(|d| d.deserialize_fstruct_type(dynamic_data))
+        deserializer.deserialize_delimited(|d| d.deserialize_t_as_final(dynamic_data))
     }
 }
 
@@ -691,6 +691,14 @@ fn is_element_type_kind_primitive(member: &DynamicTypeMember) -> XTypesResult<bo
 }
 
 impl<'a, E: EndiannessRead, V: EncodingVersion> XTypesDeserializer<'a, E, V> {
+    /// Serialization rule: { O : AsFinal(O.type) }
+    fn deserialize_t_as_final(&mut self, dynamic_data: &mut DynamicData) -> XTypesResult<()> {
+        match dynamic_data.r#type().get_kind() {
+            TypeKind::UNION => self.deserialize_funion_type(dynamic_data),
+            _ => self.deserialize_fstruct_type(dynamic_data),
+        }
+    }
+
     /// Reads a DHEADER, runs `f` and then continues after the delimited part, whatever `f`
     /// consumed, so that what follows a nested appendable or mutable value is read from the
     /// right place.
@@ -887,8 +895,7 @@ impl<'a, E: EndiannessRead, V: EncodingVersion> XTypesDeserializer<'a, E, V> {
             TypeKind::UNION => match descriptor.extensibility_kind {
                 ExtensibilityKind::Final => self.deserialize_funion_type(&mut dynamic_data)?,
                 ExtensibilityKind::Appendable => {
-                    let _dheader = self.deserialize_primitive_type::<u32>()?;
-                    self.deserialize_funion_type(&mut dynamic_data)?
+                    V::deserialize_appendable_type(self, &mut dynamic_data)?
                 }
                 ExtensibilityKind::Mutable => V::deserialize_munion_type(self, &mut dynamic_data)?,
             },
